@@ -407,8 +407,9 @@ def main(argv):
         try:
             cargo_build("dev")
             cargo_build("release")
+            gen_optable()
             rc, out = sh(["bash", "-c", f"cd {SPEC} && for f in *.tla mc/*.tla trace/*.tla; do "
-                          f"java -cp {TLC_JAR} -DTLA-Library={SPEC} tla2sany.SANY $f >/dev/null 2>&1 || echo FAIL $f; done"],
+                          f"java -cp {TLC_JAR} -DTLA-Library={SPEC}:{GEN} tla2sany.SANY $f >/dev/null 2>&1 || echo FAIL $f; done"],
                          timeout=600)
             if "FAIL" in out:
                 sys.stderr.write(out)
